@@ -47,6 +47,8 @@ class A:
     def el(self):
         return ("const " if self.const else "") + BASES[self.base]
     def cpp(self):
+        if self.k == 1 and self.ident == 2:
+            return "drv::throw_acc<%s>" % self.el()
         return ("Kokkos::default_accessor<%s>" % self.el()) if self.k == 0 else "drv::user_acc<%s, %d>" % (self.el(), self.ident)
     def toks(self):
         return [self.k, self.base, int(self.const), self.ident]
@@ -106,7 +108,7 @@ def rand_map(rng, near=None):
 def rand_acc(rng, near=None):
     if near is not None and rng.random() < 0.7:
         return A(near.k if rng.random() < 0.8 else 1 - near.k, near.base if rng.random() < 0.8 else 1 - near.base, rng.random() < 0.5, near.ident if rng.random() < 0.7 else 1)
-    return A(0 if rng.random() < 0.75 else 1, rng.randrange(2), rng.random() < 0.4, rng.randrange(2))
+    return A(0 if rng.random() < 0.75 else 1, rng.randrange(2), rng.random() < 0.4, rng.randrange(3))
 
 
 def rand_mds(rng, near=None):
